@@ -22,3 +22,64 @@ Print Assumptions C08_partition_is_total_up_to_overflow.
 Theorem C08_top_level_tokens_tile_the_expression : forall e f tm i ts i', at_ e i -> p_tokens f tm i = POk (ts, i') -> tiled (i_pos i) ts (i_pos i').
 Proof. exact p_tokens_tiled. Qed.
 Print Assumptions C08_top_level_tokens_tile_the_expression.
+
+From WaxModel Require Import Regex Spec Variance Fold Query.
+From WaxProofs Require Import TextExists PartitionLang PartitionIdem.
+
+(* the first sentence of the property, at the level of the documented language, for every glob that builds.
+   A prefix was popped ([n] > 0 tokens, text [text]): what follows it cannot begin with a tree wildcard - then the texts of the glob
+   are exactly the prefix followed by the texts of the postfix - or it is a tree wildcard, which gives up its separator - then the
+   texts of the glob are the prefix, a separator and a text of the postfix (and the prefix alone when nothing need follow the
+   wildcard).  The prefix may be any run of tokens with invariant text (literals, separators, invariant alternations and
+   repetitions); hypotheses: the case-folding table agrees with has_casing (validated on every run), no class lists the
+   separator (known class separator_class) *)
+Theorem C08_partition_preserves_the_language : forall (orbit : char -> list char) (has_casing : char -> bool),
+  (forall c d, has_casing c = false -> In d (orbit c) -> d = c) ->
+  forall e sp ts r n text post e',
+  build e = BuildOk (TCat sp ts) r -> classes_plain (TCat sp ts) = true ->
+  invariant_text_prefix has_casing (TCat sp ts) = Ok (n, text) -> (0 < n)%N -> text <> [] ->
+  partition has_casing e (TCat sp ts) = Ok (PartSome text post e') ->
+  forall first rest, skipn (N.to_nat n) ts = first :: rest ->
+    (starts_tree_list (first :: rest) = false -> forall w, Lang orbit (TCat sp ts) w <-> exists r, w = text ++ r /\ Lang orbit post r) /\
+    (is_tree first = true -> forall w, Lang orbit (TCat sp ts) w <->
+       (exists r, w = text ++ SEP :: r /\ Lang orbit post r) \/ (w = text /\ Expands (TCat sp rest) [])).
+Proof. exact built_partition_prefix. Qed.
+Print Assumptions C08_partition_preserves_the_language.
+
+(* nothing was popped: the postfix is the glob, except that a glob that begins with a rooted tree wildcard has the root as its
+   prefix and the wildcard gives up its separator *)
+Theorem C08_partition_without_prefix : forall orbit has_casing e sp ts r text post e',
+  build e = BuildOk (TCat sp ts) r -> invariant_text_prefix has_casing (TCat sp ts) = Ok (0%N, text) ->
+  partition has_casing e (TCat sp ts) = Ok (PartSome text post e') ->
+  forall w, Lang orbit (TCat sp ts) w <->
+    match ts with
+    | TLeaf _ (LTree true) :: _ => exists r, w = SEP :: r /\ Lang orbit post r
+    | _ => Lang orbit post w
+    end.
+Proof. exact built_partition_no_prefix. Qed.
+Print Assumptions C08_partition_without_prefix.
+
+(* the second sentence: partitioned again, the postfix yields an empty prefix and itself (expression included), unless its
+   first token is rooted (the known class rooted_repetition) *)
+Theorem C08_partition_is_idempotent : forall has_casing e sp ts text post e',
+  bounds_list ts -> partition has_casing e (TCat sp ts) = Ok (PartSome text post e') ->
+  (match post with TCat _ (t0 :: _) => has_root t0 <> Always | _ => True end) ->
+  partition has_casing e' post = Ok (PartSome [] post e').
+Proof. exact partition_idempotent. Qed.
+Print Assumptions C08_partition_is_idempotent.
+
+(* the premises are satisfiable: `a/**/b` and `a/b/*.c` *)
+Example C08_prefix_tree_nonvacuous :
+  exists sp ts r post e' first rest,
+    build ex1 = BuildOk (TCat sp ts) r /\ classes_plain (TCat sp ts) = true /\
+    invariant_text_prefix (fun _ => false) (TCat sp ts) = Ok (1%N, [97%N]) /\
+    partition (fun _ => false) ex1 (TCat sp ts) = Ok (PartSome [97%N] post e') /\
+    skipn 1 ts = first :: rest /\ is_tree first = true.
+Proof. exact partition_prefix_tree_nonvacuous. Qed.
+Example C08_prefix_sep_nonvacuous :
+  exists sp ts r post e' first rest,
+    build ex2 = BuildOk (TCat sp ts) r /\ classes_plain (TCat sp ts) = true /\
+    invariant_text_prefix (fun _ => false) (TCat sp ts) = Ok (4%N, [97; 47; 98; 47]%N) /\
+    partition (fun _ => false) ex2 (TCat sp ts) = Ok (PartSome [97; 47; 98; 47]%N post e') /\
+    skipn 4 ts = first :: rest /\ starts_tree_list (first :: rest) = false.
+Proof. exact partition_prefix_sep_nonvacuous. Qed.
